@@ -7,6 +7,9 @@ import vlib
 PROP = 'C04'
 
 
+EXEC = []      # generated problems that are also executed with delays (the adapted plans are validated too)
+
+
 def make(rd, tier, seed, ev):
     shapes, r = gen_problems.plangen_shapes(2 if tier == 'quick' else 3, rd) if tier == 'quick' else gen_problems.plangen_shapes(2, rd)
     ev.add_model(r, 'PlanGen: enumeration of all small timeline problems with their feasibility verdicts')
@@ -18,6 +21,7 @@ def make(rd, tier, seed, ev):
     if tier == 'quick':
         repo = [p for p in repo if not p[0].startswith('GOAC') or p[0].endswith('1Wind')]
     ev.sample({'generated_problem': gen[0][0], 'text': open(gen[0][1][0]).read()})
+    EXEC.extend([g for g in gen if g[0].startswith('ft_')][:60 if tier == 'quick' else 600])
     return plancheck.remember(gen + repo), None
 
 
@@ -32,7 +36,8 @@ def run(tier, seed):
         assumptions=['an atom is assigned to an instance when its tau is that instance or a variable whose reported domain is exactly it',
                      'solver runs exceeding the time budget are excluded and counted'],
         make_problems=make, configs_quick=['dbg_exec'], configs_thorough=['dbg_exec', 'rel_exec_hadd_ci', 'dbg_exec_ci', 'dbg_exec_hadd'],
-        stat_key='sv_pairs')
+        stat_key='sv_pairs',
+        post=lambda ev, rd, tier_, seed_: plancheck.exec_runs(ev, PROP, rd, EXEC, seed_, tier_))
 
 
 def replay(path):
